@@ -71,6 +71,7 @@ TraceOrdersQuick == {<<T1, T2>>, <<T2, T1>>}
 TraceOrdersBig == {<<T1, T2>>, <<T2, T1>>, <<T2>>}
 ParentOrdersQuick == {<<P1, P2>>}
 ParentOrdersBig == {<<P1, P2>>, <<P2, P1>>, <<P2>>}
+ParentOrdersTwo == {<<P1, P2>>, <<P2, P1>>}
 MapOrderDef == <<T1, T2, P1, P2, MT, MS>>
 
 \* -------------------------------------------------------------------------
